@@ -679,7 +679,8 @@ def replay_bulge(param, model):
 
 TS_Q = [(1, 1), (3, 7), (16, 256)]
 TS_T = TS_Q + [(256, 16), (2, 2), (512, 512), (7, 1)]
-GI_Q = [dict(k="1", mx=1, n_dst=4, n_src=4, axis="x"), dict(k="2", mx=1, n_dst=2, n_src=4, axis="y"), dict(k="1", mx=-1, n_dst=4, n_src=3, axis="x"), dict(k="1/2", mx=1, n_dst=4, n_src=2, axis="y")]
+GI_Q = [dict(k="1", mx=1, n_dst=3, n_src=4, axis="x"),  # one GeoBox can be cut both ways into the same number of tiles
+        dict(k="1", mx=1, n_dst=4, n_src=4, axis="x"), dict(k="2", mx=1, n_dst=2, n_src=4, axis="y"), dict(k="1", mx=-1, n_dst=4, n_src=3, axis="x"), dict(k="1/2", mx=1, n_dst=4, n_src=2, axis="y")]
 GI_T = GI_Q + [dict(k=k, mx=mx, n_dst=nd, n_src=ns, axis=ax) for k in ("1", "2", "3/2", "1/2") for mx in (1, -1) for nd, ns in ((4, 4), (3, 5)) for ax in ("x", "y")]
 
 OBLIGATIONS = [
